@@ -699,13 +699,25 @@ class Interp:
             # a required method of a workspace trait called on `self` inside a PROVIDED method that is interpreted on its own (no
             # instantiation to resolve it by): the implementation for the receiver's type
             rv_ = self.deref_all(args[0])
+            import re as _re
+            tr_, me_ = name.rsplit('::', 1)
+            recv_ = None
             if rv_ is not None and rv_[0] == 'adt':
-                import re as _re
-                tr_, me_ = name.rsplit('::', 1)
-                pat = _re.compile(r'^<%s(<.*>)? as %s(<.*>)?>::%s$' % (_re.escape(rv_[1]), _re.escape(tr_), _re.escape(me_)))
+                recv_ = _re.escape(rv_[1])
+            elif rv_ is not None and rv_[0] == 'map':
+                recv_ = 'alloc::collections::btree::map::BTreeMap' if rv_[1].kind == 'btree' else 'std::collections::hash::map::HashMap'
+                recv_ = _re.escape(recv_)
+            elif rv_ is not None and rv_[0] == 'vec':
+                recv_ = '(alloc::vec::Vec|smallvec::SmallVec)'
+            if recv_ is not None:
+                pat = _re.compile(r'^<%s(<.*>)? as %s(<.*>)?>::%s$' % (recv_, _re.escape(tr_), _re.escape(me_)))
                 cands = [b_ for n_, b_ in self.facts.bodies.items() if n_.startswith('<') and pat.match(n_) and not b_.d['promoted']]
                 if len(cands) == 1:
                     wb = cands[0]
+            if wb is None:
+                # a workspace trait method that cannot be resolved must never be taken for a std operation of the same name
+                # (`StampMap::take` is not `Option::take`): decline
+                raise Unmodelled('call to the workspace trait method %s could not be resolved to an implementation' % name)
         if wb is not None and wb.derived and args:
             # a derived impl (Ord / PartialEq / Clone / Hash ...) on a value the abstract domain keeps atomic (a stamp, a key):
             # the derived body would take the atom apart; its meaning is the trait operation on the atom
